@@ -4,7 +4,8 @@ import UF.Basic.Bytes
   `FastHash "" = 0`.  The lookup theorems are proved for an arbitrary pair of hash functions
   (`HashFns`) and instantiated with this one (`djb2`).
 -/
-namespace UF
+namespace UF.B
+open UF UF.Bytes
 
 /-- The loop body of `FastHashBetween` folded over the bytes it visits. -/
 def fastHashFrom (acc : UInt32) : Bytes → UInt32
@@ -43,4 +44,4 @@ def HashFns.Coherent (hf : HashFns) (k : Nat) : Prop :=
 /-- The concrete pair of `filterutil/hash.go`. -/
 def djb2 : HashFns := ⟨fastHash, fastHashBetween⟩
 
-end UF
+end UF.B
